@@ -152,13 +152,14 @@ def litValue : Bytes := [44, 34, 86, 97, 108, 117, 101, 34, 58]
 def litLink : Bytes := [44, 34, 76, 105, 110, 107, 34, 58]
 def litNull : Bytes := [110, 117, 108, 108]
 
+/-- a link inside a present list: `null` or the quoted name -/
+def linkText (l : Option Bytes) : Bytes := match l with | none => litNull | some nm => quote nm
+
 /-- `json.Marshal(node.Node)` for format "v1marshaler": `Link` omitted when trimmed to nil,
     nil links inside a present list are `null` -/
 def encJson (n : NodeB) : Bytes :=
   litKey ++ jsonArray n.keys ++ litValue ++ jsonArray n.vals ++
-    (if n.links.all Option.isNone then []
-     else litLink ++ jsonArray (n.links.map fun l =>
-        match l with | none => litNull | some nm => quote nm)) ++ [125]
+    (if n.links.all Option.isNone then [] else litLink ++ jsonArray (n.links.map linkText)) ++ [125]
 
 end Codec
 
